@@ -7,6 +7,7 @@ import CedarVerif.Lemmas.PartialSubst5
 import CedarVerif.Lemmas.PartialStore5
 import CedarVerif.Lemmas.PartialStore6
 import CedarVerif.Lemmas.PartialStore7
+import CedarVerif.Cedar.ExprBeq
 /-
 C13 — partial evaluation with unknowns is sound.  Property theorems only (helpers: Lemmas/Partial*.lean).
 Model: Cedar/Partial.lean (`pinterp`, `PartialResponse`, `reauthorize`).
@@ -42,13 +43,17 @@ What is proved:
 `Frag` and `Frag2 σ` are formally incomparable only because `Frag2.record` asks for pairwise distinct keys (what the parser
 and `Expr::record` guarantee; without it `get_attr`'s projection — first binding — and record evaluation — last binding —
 differ in the model).
+  * `pinterp_sound_store_on` / `pinterp_sound_store_reauth_on` / `partial_definite_sound_on` /
+    `partial_authorization_sound_on`: the same four statements for **`.partial()` stores, relativised**: `PS.StoreCompletesOn U`
+    asks the uid-named unknown of a missing entity to be bound only for uids of the finite list `U = PS.mentioned …` /
+    `PS.mentionedPolicies …` (literal uids of the policies, known request entries, context, mapper values, slot environments,
+    attribute / tag values of the partial store).  Closed-world invariant `PS.pinterp_in` (Lemmas/PartialStoreU.lean): every
+    value and residual of the first pass mentions only uids of `U`, threaded through `PS.pinterp_sound3_on` /
+    `PS.papplyBinary_sound3_on`; the unrelativised theorems are the instance `U` = everything.  Non-vacuity: an `example`
+    with a `.partial()` store lacking the dereferenced `resource.owner` entity, where `PS.StoreCompletes` is FALSE and
+    `PS.StoreCompletesOn` holds.
 Still missing w.r.t. `PinterpSoundFull`:
-  * `.partial()` stores only under a hypothesis that a finite σ cannot meet on an infinite uid universe: `PS.StoreCompletes`
-    (like `StoreCompletes` of the full statement) asks the uid-named unknown of EVERY missing entity to be bound; the version
-    relativised to the entities actually dereferenced needs a closed-world invariant on all values (every entity uid
-    occurring in policy, request, σ and store is present or bound) and is not proved.  Proved and non-vacuous: every
-    dereference of a missing entity whose unknown is bound agrees (the `.residual` arms inside `PS.pinterp_sound3`,
-    `PS.papplyBinary_sound3`);
+  * `U` over-approximates the dereferenced uids (a mentioned uid that is never dereferenced must still be present or bound);
   * the one-round statement on the *unsubstituted* store for stores whose residual attributes are all direct unknowns is
     proved at expression level (`pinterp_sound_store_reauth_direct`), not lifted to `reauthorize` on policy sets
     (`PolicyAgrees` / `reauthorize_core` fix the second-pass store to `.ofConcrete es`);
@@ -756,6 +761,184 @@ example :
   obtain ⟨⟨pr2, h1, h2, _, h4⟩, _⟩ := partial_authorization_sound PS.srSigma PS.srReq PS.srEs PS.srPreq PS.srPes ps ⟨trivial, trivial⟩ hstore
     PS.sr_storeCompletes.1 PS.sr_storeCompletes.2 hfrag rfl (by decide +kernel) hf1 hf2
   exact ⟨by decide +kernel, by decide +kernel, pr2, h1, h2, h4⟩
+
+/-! ### `.partial()` stores, relativised to the uids the first pass can dereference -/
+
+/-- **pinterp_sound_store_on** — `pinterp_sound_store` with the hypothesis on entities missing from a `.partial()` store
+relativised: `PS.StoreCompletesOn U` asks the uid-named unknown of a missing entity to be bound (to the entity itself) only
+for uids of the FINITE list `U = PS.mentioned m0 preq pes env e` — the literal uids of `e`, the known request entries, the
+uids in the context, in the values of the mapper `m0`, in the slot environment and in the (known or residual) attribute / tag
+values of `pes`.  Closed world (`PS.pinterp_in`): every value and every residual the first pass produces mentions only
+such uids, so these are the only uids it can pass to `Entities::entity`.  What the completed store `es` holds for other
+uids, and for the missing ones, is arbitrary.  (`U` over-approximates "dereferenced": a mentioned uid that is never
+dereferenced still has to be present or bound.) -/
+theorem pinterp_sound_store_on (σ : Mapper) (req : Request) (es : Entities) (env : SlotEnv)
+    (hctx : (Value.record req.context).Canon) {e : Expr} (hf : PS.Frag2 σ e)
+    (m0 : Mapper) (preq : PRequest) (pes : PEntities) (n : Nat) (hm : PS.MapLE m0 σ)
+    (hS : PS.StoreCompletesOn (fun u => u ∈ PS.mentioned m0 preq pes env e) σ pes es) (hC : PS.Concretizes2 σ es preq req) :
+    match pinterp m0 preq pes env n e with
+    | .val v => evaluate req es env (v.toExpr.substUnk σ) = .ok v ∧ evaluate req es env (e.substUnk σ) = .ok v
+    | .err _ => ∃ c, evaluate req es env (e.substUnk σ) = .error c
+    | .res r => PS.Agree (evaluate req es env (r.substUnk σ)) (evaluate req es env (e.substUnk σ))
+    | .fuel => True
+    | .panic => True := by
+  obtain ⟨h1, h2, h3, h4, h5⟩ := PS.mentioned_closed m0 preq pes env e
+  have h := PS.pinterp_sound3_on σ req es env hctx m0 preq pes _ hS hm hC h2 h3 h4 h5 n e hf h1
+  cases hx : pinterp m0 preq pes env n e with
+  | val v => rw [hx] at h; exact ⟨PS.Y_toExpr σ req es env h.2, h.1⟩
+  | err c => rw [hx] at h; exact h
+  | res r => rw [hx] at h; exact h.1
+  | fuel => trivial
+  | panic => trivial
+
+/-- **pinterp_sound_store_reauth_on** — the `reauthorize` form (second pass on the substituted store), relativised likewise. -/
+theorem pinterp_sound_store_reauth_on (σ : Mapper) (req : Request) (es : Entities) (env : SlotEnv)
+    (hctx : (Value.record req.context).Canon) (hstore : PS.StoreCanon es) {e : Expr} (hf : PS.Frag2 σ e)
+    (m0 : Mapper) (preq : PRequest) (pes : PEntities) (n : Nat) (hm : PS.MapLE m0 σ)
+    (hS : PS.StoreCompletesOn (fun u => u ∈ PS.mentioned m0 preq pes env e) σ pes es) (hC : PS.Concretizes2 σ es preq req) :
+    match pinterp m0 preq pes env n e with
+    | .val v => evaluate req es env (e.substUnk σ) = .ok v
+    | .err _ => ∃ c, evaluate req es env (e.substUnk σ) = .error c
+    | .res r => ∀ n', Sem (pinterp σ (.ofConcrete req) (.ofConcrete es) env n' r) (evaluate req es env (e.substUnk σ))
+    | .fuel => True
+    | .panic => True := by
+  obtain ⟨h1, h2, h3, h4, h5⟩ := PS.mentioned_closed m0 preq pes env e
+  have h := PS.pinterp_sound3_on σ req es env hctx m0 preq pes _ hS hm hC h2 h3 h4 h5 n e hf h1
+  cases hx : pinterp m0 preq pes env n e with
+  | val v => rw [hx] at h; exact h.1
+  | err c => rw [hx] at h; exact h
+  | res r => rw [hx] at h; exact fun n' => PS.sem_of_agree (PS.bridge σ req es env hctx hstore h.2.2 n') h.1
+  | fuel => trivial
+  | panic => trivial
+
+/-- **partial_definite_sound_on** — `partial_definite_sound` with `StoreCompletes` relativised to
+`PS.mentionedPolicies preq pes ps` (the union of `PS.mentioned [] preq pes p.env p.condition` over the policies). -/
+theorem partial_definite_sound_on (σ : Mapper) (req : Request) (es : Entities) (preq : PRequest) (pes : PEntities)
+    (ps : List Policy) (hctx : (Value.record req.context).Canon)
+    (hS : PS.StoreCompletesOn (fun u => u ∈ PS.mentionedPolicies preq pes ps) σ pes es) (hC : PS.Concretizes2 σ es preq req)
+    (hfrag : ∀ p, p ∈ ps → PS.Frag2 σ p.condition ∧ p.condition.unknowns = [])
+    (hfuel1 : ∀ p, p ∈ ps → partialEvaluate [] preq pes p ≠ .stuck) :
+    let pr := isAuthorizedCore [] preq pes ps
+    (∀ d, pr.decision = some d → (isAuthorized req es ps).decision = d) ∧
+    (∀ id, id ∈ pr.mustBeDetermining → id ∈ (isAuthorized req es ps).reasons) ∧
+    (∀ id, id ∈ (isAuthorized req es ps).reasons → id ∈ pr.mayBeDetermining) ∧
+    (∀ id, id ∈ pr.definitelySatisfied → ∃ p, p ∈ ps ∧ p.id = id ∧ p.outcome req es = .sat) ∧
+    (∀ id, id ∈ pr.definitelyErrored → ∃ p, p ∈ ps ∧ p.id = id ∧ p.outcome req es = .err) ∧
+    (∀ id, id ∈ pr.definitelyFalse → ∃ p, p ∈ ps ∧ p.id = id ∧ p.outcome req es = .unsat) := by
+  intro pr
+  have hc : ∀ p, p ∈ ps → Consistent (partialEvaluate [] preq pes p) (p.outcome req es) := fun p hp =>
+    PS.consistent_of_sound σ req es preq pes p
+      (PS.sound_of_mentioned σ req es hctx preq pes hS hC p
+        (fun u hu => List.mem_flatMap.mpr ⟨p, hp, hu⟩) (hfrag p hp).1)
+      (PS.substUnk_of_noUnk σ _ (hfrag p hp).2) (hfuel1 p hp)
+  obtain ⟨h1, h2, h3, h4, h5, h6⟩ := table_sound [] preq pes ps (fun p => p.outcome req es) hc
+  refine ⟨?_, ?_, ?_, h4, h5, h6⟩
+  · intro d hd; rw [PS.isAuthorized_decision]; exact h1 d hd
+  · intro id hid; rw [PS.isAuthorized_reasons]; exact h2 id hid
+  · intro id hid; rw [PS.isAuthorized_reasons] at hid; exact h3 id hid
+
+/-- **partial_authorization_sound_on** — `partial_authorization_sound` for `.partial()` stores in the relativised form: an
+entity missing from the partial store has to be bound by σ only if its uid is mentioned by a policy of the set, the request
+or an attribute / tag value of the store (`PS.mentionedPolicies`).  Conclusions as in `partial_authorization_sound`. -/
+theorem partial_authorization_sound_on (σ : Mapper) (req : Request) (es : Entities) (preq : PRequest) (pes : PEntities)
+    (ps : List Policy) (hctx : (Value.record req.context).Canon) (hstore : PS.StoreCanon es)
+    (hS : PS.StoreCompletesOn (fun u => u ∈ PS.mentionedPolicies preq pes ps) σ pes es) (hC : PS.Concretizes2 σ es preq req)
+    (hfrag : ∀ p, p ∈ ps → PS.Frag2 σ p.condition ∧ p.condition.unknowns = [])
+    (hreq : (isAuthorizedCore [] preq pes ps).concretizeRequest σ = .ok (.ofConcrete req))
+    (hslot : (isAuthorizedCore [] preq pes ps).residualPoliciesPanic = false)
+    (hfuel1 : ∀ p, p ∈ ps → partialEvaluate [] preq pes p ≠ .stuck)
+    (hfuel2 : ∀ p, p ∈ ps → ∀ q, residualPolicy (partialEvaluate [] preq pes p) p = some q →
+      partialEvaluate σ (.ofConcrete req) (.ofConcrete es) q ≠ .stuck) :
+    let pr := isAuthorizedCore [] preq pes ps
+    (∃ pr2, pr.reauthorize σ (.ofConcrete es) = .ok pr2 ∧
+      pr2.decision = some (isAuthorized req es ps).decision ∧
+      pr2.concretize.decision = (isAuthorized req es ps).decision ∧
+      (∀ id, id ∈ pr2.concretize.reasons ↔ id ∈ (isAuthorized req es ps).reasons)) ∧
+    (∀ d, pr.decision = some d → (isAuthorized req es ps).decision = d) ∧
+    (∀ id, id ∈ pr.mustBeDetermining → id ∈ (isAuthorized req es ps).reasons) ∧
+    (∀ id, id ∈ (isAuthorized req es ps).reasons → id ∈ pr.mayBeDetermining) := by
+  intro pr
+  obtain ⟨h1, h2, h3, _⟩ := partial_definite_sound_on σ req es preq pes ps hctx hS hC hfrag hfuel1
+  refine ⟨?_, h1, h2, h3⟩
+  exact reauthorize_core σ preq pes ps req es hreq hslot
+    (fun p hp => PS.policyAgrees_of_sound σ req es hctx hstore preq pes p
+      (PS.sound_of_mentioned σ req es hctx preq pes hS hC p
+        (fun u hu => List.mem_flatMap.mpr ⟨p, hp, hu⟩) (hfrag p hp).1)
+      (PS.substUnk_of_noUnk σ _ (hfrag p hp).2)
+      (fun r hr => PS.noSlot_of_panicFree preq pes ps hslot hp hr) (hfuel2 p hp) (hfuel1 p hp))
+
+/-- non-vacuity of the `…_on` theorems: a **`.partial()` store that really lacks an entity the policy dereferences**.
+    `resource.owner.name == "alice"`; the partial store holds `File::"f"` with `owner = User::"o"` but not `User::"o"`; σ binds
+    the request entities and `User::"o"` (all the mentioned uids that are missing), nothing else — `PS.StoreCompletes` is
+    false for this σ (`File::"zz"` is missing and unbound), `PS.StoreCompletesOn` holds.  The first pass leaves
+    `unknown(User::"o").name == "alice"`; its substitution evaluates to the concrete `true` on the completed store; ONE
+    `reauthorize` round on the substituted store gives `Allow`; on the unsubstituted `.partial()` store the second pass
+    maps the unknown to `User::"o"`, dereferences it, finds it missing again and returns the same residual (no number of
+    rounds resolves it). -/
+example :
+    let f : EntityUID := ⟨"File", "f"⟩
+    let o : EntityUID := ⟨"User", "o"⟩
+    let σ : Mapper := [("User::\"p\"", .prim (.entityUID ⟨"User", "p"⟩)), ("A::\"x\"", .prim (.entityUID ⟨"A", "x"⟩)),
+      ("User::\"o\"", .prim (.entityUID o))]
+    let req : Request := ⟨⟨"User", "p"⟩, ⟨"A", "x"⟩, f, []⟩
+    let pes : PEntities := ⟨[(f, ⟨[("owner", .value (.prim (.entityUID o)))], [], []⟩)], true⟩
+    let es : Entities := [(f, ⟨[("owner", .prim (.entityUID o))], [], []⟩), (o, ⟨[("name", .prim (.string "alice"))], [], []⟩)]
+    let e : Expr := .binaryApp .eq (.getAttr (.getAttr (.var .resource) "owner") "name") (.lit (.string "alice"))
+    let r : Expr := .binaryApp .eq (.getAttr (.unknown "User::\"o\"" (some (.entity "User"))) "name") (.lit (.string "alice"))
+    let p : Policy := ⟨"owner", .permit, e, []⟩
+    PS.Frag2 σ e ∧ ¬ PS.StoreCompletes σ pes es ∧
+    PS.StoreCompletesOn (fun u => u ∈ PS.mentionedPolicies (.ofConcrete req) pes [p]) σ pes es ∧
+    pinterp [] (.ofConcrete req) pes [] 10 e = .res r ∧
+    (⟨"q", .permit, r.substUnk σ, []⟩ : Policy).outcome req es = .sat ∧ p.outcome req es = .sat ∧
+    (match pinterp σ (.ofConcrete req) (.ofConcrete es) [] 10 r with | .val (.prim (.bool true)) => true | _ => false) = true ∧
+    (match pinterp σ (.ofConcrete req) pes [] 10 r with | .res r' => Expr.beq r' r | _ => false) = true ∧
+    (isAuthorizedCore [] (.ofConcrete req) pes [p]).decision = none ∧
+    ∃ pr2, (isAuthorizedCore [] (.ofConcrete req) pes [p]).reauthorize σ (.ofConcrete es) = .ok pr2 ∧
+      pr2.decision = some (isAuthorized req es [p]).decision ∧ (isAuthorized req es [p]).decision = .allow := by
+  intro f o σ req pes es e r p
+  have hfrag : PS.Frag2 σ e := .binaryApp .eq (.getAttr "name" (.getAttr "owner" (.var _))) (.lit _)
+  have hment : PS.mentionedPolicies (.ofConcrete req) pes [p] = [⟨"User", "p"⟩, ⟨"A", "x"⟩, f, o] := by decide +kernel
+  have hSon : PS.StoreCompletesOn (fun u => u ∈ PS.mentionedPolicies (.ofConcrete req) pes [p]) σ pes es := by
+    intro u
+    rw [hment]
+    simp only [pes, PEntities.find?]
+    by_cases hk : (f == u) = true
+    · simp only [hk, if_true]
+      refine ⟨⟨[("owner", .prim (.entityUID o))], [], []⟩, by simp [es, Entities.find?, hk], rfl, ?_, PS.attrsComplete_nil⟩
+      exact PS.attrsComplete_cons "owner" (show PS.AttrCompletes _ _ (.value (.prim (.entityUID o))) (.prim (.entityUID o)) from ⟨rfl, trivial⟩) PS.attrsComplete_nil
+    · simp only [hk, Bool.false_eq_true, if_false, if_true]
+      intro hu
+      simp only [List.mem_cons, List.not_mem_nil, or_false] at hu
+      rcases hu with rfl | rfl | rfl | rfl
+      · rfl
+      · rfl
+      · exact absurd (by decide) hk
+      · rfl
+  have hnot : ¬ PS.StoreCompletes σ pes es := by
+    intro h
+    have hb := h ⟨"File", "zz"⟩
+    simp only [pes, PEntities.find?, show (f == (⟨"File", "zz"⟩ : EntityUID)) = false from by decide, Bool.false_eq_true,
+      if_false, if_true] at hb
+    unfold PS.Bound at hb
+    have hn : lookupKV σ (uidName ⟨"File", "zz"⟩) = none := rfl
+    rw [hn] at hb
+    cases hb
+  have hstore : PS.StoreCanon es := by
+    intro u d h
+    simp only [es, Entities.find?] at h
+    split at h
+    · cases h; repeat' constructor
+    · split at h
+      · cases h; repeat' constructor
+      · cases h
+  have hfr : ∀ q, q ∈ [p] → PS.Frag2 σ q.condition ∧ q.condition.unknowns = [] := by
+    intro q hq; simp only [List.mem_cons, List.not_mem_nil, or_false] at hq; subst hq; exact ⟨hfrag, rfl⟩
+  obtain ⟨hf1, hf2⟩ := PS.fuelOK_spec (σ := σ) (req := req) (es := es) (preq := .ofConcrete req) (pes := pes) (ps := [p])
+    (by decide +kernel)
+  obtain ⟨⟨pr2, h1, h2, _, _⟩, _⟩ := partial_authorization_sound_on σ req es (.ofConcrete req) pes [p] ⟨trivial, trivial⟩ hstore
+    hSon (PS.concretizes2_ofConcrete σ es req) hfr rfl (by decide +kernel) hf1 hf2
+  exact ⟨hfrag, hnot, hSon, rfl, by decide +kernel, by decide +kernel, by decide +kernel, by decide +kernel, by decide +kernel, pr2, h1, h2,
+    by decide +kernel⟩
 
 /-- **restricted_eval_sound** — the restricted evaluator (`RestrictedEvaluator::partial_interpret`, which evaluates
 contexts and attribute values) is sound for the evaluator: a *value* it returns is the value of the expression for every
